@@ -105,6 +105,9 @@ theorem tinvC_ltr {s : State} {t : Tid} {e : Event} {x' : Thr} (hi : TInvC s.now
     constructor <;> simp_all [Loc.inSem]
   | noteSeen hl => constructor <;> simp_all [Loc.inSem]
   | noteNotify hl ht => constructor <;> simp_all [Loc.inSem]
+  | callDebug k hl => constructor <;> simp [Thr.fresh, Loc.inSem]
+  | retDebug k hl hk => exact tinvC_fresh _ _ _ rfl
+  | dbgLd obs hl ho => split <;> constructor <;> simp_all [Loc.inSem]
   | _ => constructor <;> simp_all [Loc.inSem] <;> grind [Loc.inSem]
 
 end NsyncVerif.CvFix
@@ -158,7 +161,7 @@ theorem invC_tr {cfg : Config} {s s' : State} {e : Event} (hi : InvC s) (h : Tr 
     refine invC_of_frame (t := t) hi (afterAcquire_now _ _ _) (fun u hu => afterAcquire_thr_other _ _ _ _ hu) ?_
     obtain ⟨a1, a2, a3, a4, a5⟩ := afterAcquire_thr_self { s with word := n, holder := some t } t { s.thr t with old := o }
     refine tinvC_upd (hi t) a1 a2 a3 a4 ?_
-    rcases a5 with a5 | a5 | a5 | a5 | a5 <;> rw [a5] <;> rfl
+    rcases a5 with a5 | a5 | a5 | a5 | a5 | a5 <;> rw [a5] <;> rfl
   | semOther e sem' h => exact hi
   | wwCasOk t exp new obs f rest hl hlist =>
     refine invC_of_frame (t := t) hi rfl (fun u hu => by simp [hu]) ?_
